@@ -181,6 +181,7 @@ def element_parsing(
     same_part: bool,
     doc_lines: np.array,
     line2pos: dict,
+    sub_spine: bool = False,
 ):
     """
     Parse and add musical elements to a part.
@@ -199,6 +200,8 @@ def element_parsing(
         Array of document lines corresponding to the elements.
     line2pos : dict
         Dictionary mapping document lines to their part start positions.
+    sub_spine : bool
+        Flag indicating if the elements come from a column opened by a spine split.
 
     Returns
     -------
@@ -215,7 +218,17 @@ def element_parsing(
     for i in range(elements.shape[0]):
         element = elements[i]
         if i < len(doc_lines):
-            current_tl_pos = line2pos.get(doc_lines[i], current_tl_pos)
+            if isinstance(element, (spt.GenericNote, tuple)):
+                # Notes and chords on the same document line start together.
+                current_tl_pos = line2pos.get(doc_lines[i], current_tl_pos)
+            elif isinstance(element, KernElement) and element.voice_start:
+                # A sub-spine starts where the spine it splits from has arrived.
+                # (The position of any other line belongs to the spine that stored
+                # it and says nothing about the running position of this spine.)
+                if sub_spine:
+                    current_tl_pos = line2pos.get(doc_lines[i], current_tl_pos)
+                else:
+                    line2pos[doc_lines[i]] = current_tl_pos
 
         # Handle editorial elements
         if isinstance(element, KernElement):
@@ -325,6 +338,10 @@ def load_kern(
         if np.any(has_part_global)
         else p_same_part
     )
+    # Columns opened by a spine split (all but the first column of a spine)
+    sub_spines = np.ones(len(parsing_idxs), dtype=bool)
+    sub_spines[np.unique(parsing_idxs, return_index=True)[1]] = False
+    sub_spines = sub_spines[: np.size(note_parts)][np.atleast_1d(note_parts)]
     # Assign all splines to the same part if necessary
     if p_same_part or force_same_part:
         parsing_idxs[:] = 0
@@ -411,15 +428,22 @@ def load_kern(
         part.set_quarter_duration(0, divs_pq)
 
     line2pos = {}
-    for part, elements, total_duration_values, same_part, doc_lines in zip(
+    for part, elements, total_duration_values, same_part, doc_lines, sub_spine in zip(
         copy_partlist,
         elements_list,
         total_durations_list,
         part_assignments,
         doc_lines_per_spline,
+        sub_spines,
     ):
         line2pos = element_parsing(
-            part, elements, total_duration_values, same_part, doc_lines, line2pos
+            part,
+            elements,
+            total_duration_values,
+            same_part,
+            doc_lines,
+            line2pos,
+            sub_spine,
         )
 
     for i, part in enumerate(copy_partlist):
